@@ -41,6 +41,8 @@ const PROGS: &[Prog] = &[
     Prog { name: "ok-cond", files: &[("main.rssl", "#define A 2\n#if A > 1 && defined(A)\nint x = 1;\n#elif A == 1\nint x = 2;\n#else\nint x = 3;\n#endif\n#ifndef B\nint y = x < 3 ? 1 : 0;\n#endif\n")] },
     Prog { name: "ok-include", files: &[("main.rssl", "#include \"a.h\"\nint f() { return A + g(2); }\n#include \"a.h\"\n"), ("a.h", "#pragma once\n#define A 7\nint g(int v) { return v << 1; }\n")] },
     Prog { name: "ok-template", files: &[("main.rssl", "template<typename T> T twice(T v) { return v + v; }\nfloat a() { return twice<float>(1.0) + twice(2); }\nvector<float, 3> q;\nbool lt(int a, int b) { return a < b; }\n")] },
+    Prog { name: "ok-member", files: &[("main.rssl", "struct P { float3 v; int n[2]; float len() { return v.x + this.v.y; } };\nStructuredBuffer<P> ps;\nfloat f(P p, uint i) { return p.v.zyx.x + ps[i].v.y + p.len() + ps.Load(i).n[1] + 2.5.x + 1.0f.xx.y; }\n")] },
+    Prog { name: "ok-int-swizzle", files: &[("main.rssl", "float2 f() { return 1.xx; }\n")] },
     Prog { name: "err-undeclared", files: &[("main.rssl", "void f() {\n  int x = 1;\n  int z = x + yy;\n}\n")] },
     Prog { name: "err-type", files: &[("main.rssl", "struct S { int a; };\nvoid f() {\n  S s;\n  float3 v = s;\n}\n")] },
     Prog { name: "err-parse", files: &[("main.rssl", "void f() {\n  int x = (1 + ;\n}\n")] },
@@ -52,6 +54,7 @@ const PROGS: &[Prog] = &[
     Prog { name: "err-directive", files: &[("main.rssl", "int a;\nint b;\n#frobnicate 1\n")] },
     Prog { name: "err-macro-args", files: &[("main.rssl", "#define F(a, b) a + b\nint x = 1;\nint y = F(1);\n")] },
     Prog { name: "err-in-macro", files: &[("main.rssl", "#define BAD(v) (v + undeclared_name)\nint f(int q) {\n  return BAD(q);\n}\n")] },
+    Prog { name: "err-in-paste", files: &[("main.rssl", "#define CAT(a, b) a ## b\nint f() {\n  return CAT(un, known);\n}\n")] },
     Prog { name: "err-in-include", files: &[("main.rssl", "int a;\n#include \"b.h\"\nint c;\n"), ("b.h", "int ok;\n\nint bad = nope;\n")] },
     Prog { name: "err-after-include", files: &[("main.rssl", "#include \"b.h\"\nint c = ok;\nint d = nope;\n"), ("b.h", "int ok;\n")] },
     Prog { name: "err-nested-include", files: &[("main.rssl", "#include \"b.h\"\n"), ("b.h", "int x;\n#include \"c.h\"\n"), ("c.h", "\n\n  float y = x.q.r;\n")] },
@@ -87,9 +90,13 @@ fn pieces(line: &str) -> Vec<(usize, usize)> {
         let c = b[i];
         let start = i;
         if c == b' ' || c == b'\t' { i += 1; continue; }
-        if c.is_ascii_alphanumeric() || c == b'_' || (c == b'.' && i + 1 < b.len() && b[i + 1].is_ascii_digit()) {
-            // identifiers and numbers (with exponent signs) as one piece
-            while i < b.len() && (b[i].is_ascii_alphanumeric() || b[i] == b'_' || b[i] == b'.' || ((b[i] == b'+' || b[i] == b'-') && i > start && (b[i - 1] == b'e' || b[i - 1] == b'E') && b[start].is_ascii_digit())) { i += 1; }
+        if c.is_ascii_alphabetic() || c == b'_' {
+            // identifiers; the period of a member access is a piece of its own
+            while i < b.len() && (b[i].is_ascii_alphanumeric() || b[i] == b'_') { i += 1; }
+        } else if c.is_ascii_digit() || (c == b'.' && i + 1 < b.len() && b[i + 1].is_ascii_digit()) {
+            // numbers (with fraction, exponent signs and suffix) as one piece; a period followed by `x` starts a swizzle
+            // of the number (`1.xx` is the three tokens `1` `.` `xx`)
+            while i < b.len() && (b[i].is_ascii_alphanumeric() || b[i] == b'_' || (b[i] == b'.' && !(i + 1 < b.len() && b[i + 1] == b'x')) || ((b[i] == b'+' || b[i] == b'-') && i > start && (b[i - 1] == b'e' || b[i - 1] == b'E'))) { i += 1; }
         } else if c == b'"' {
             i += 1;
             while i < b.len() && b[i] != b'"' { i += 1; }
@@ -107,18 +114,23 @@ fn pieces(line: &str) -> Vec<(usize, usize)> {
 const INLINE: &[&str] = &[" ", "\t", "  ", "/* c */", " /**/ ", "\\\n", "/*/ c */", "/*/*/", "/***/", "/*//*/"];
 const ANY: &[&str] = &[" ", "\t", "\n", "\n\n", "/* c */", "// c\n", "\\\n", " /* a\n b */ ", "\n  ", "/*/ c */", "/*/*/", "/***/", "//* c\n", "/* // */"];
 
-fn insert_trivia(text: &str, rng: &mut Rng, density: u64) -> String {
+/// the text with trivia inserted, and every insertion made: (offset in the original text, inserted text)
+fn insert_trivia_rec(text: &str, rng: &mut Rng, density: u64) -> (String, Vec<(usize, &'static str)>) {
     let mut out = String::new();
+    let mut made: Vec<(usize, &'static str)> = Vec::new();
+    let mut line_start = 0usize;
     for line in text.split_inclusive('\n') {
+        let this_line = line_start;
+        line_start += line.len();
         let body = line.trim_end_matches('\n');
         let is_directive = body.trim_start().starts_with('#');
         if is_directive && (body.contains("include") || body.contains("pragma")) { out += line; continue; }
         let ps = pieces(body);
         let mut last = 0;
         let mut define_name_seen = 0;   // pieces seen on a #define line: '#', 'define', name
-        if !is_directive && rng.chance(1, density) { out += *rng.pick(&["\n", "// lead\n", "/* lead */ ", "  "]); }
+        if !is_directive && rng.chance(1, density) { let t = *rng.pick(&["\n", "// lead\n", "/* lead */ ", "  "]); out += t; made.push((this_line, t)); }
         // a directive may be preceded by blanks, a comment or a splice on its own line
-        if is_directive && rng.chance(1, density) { out += *rng.pick(&["  ", "\t", "/* lead */ ", "/* a */ /* b */", "\\\n", " \\\n  "]); }
+        if is_directive && rng.chance(1, density) { let t = *rng.pick(&["  ", "\t", "/* lead */ ", "/* a */ /* b */", "\\\n", " \\\n  "]); out += t; made.push((this_line, t)); }
         for (k, (s, e)) in ps.iter().enumerate() {
             out += &body[last..*s];
             let piece = &body[*s..*e];
@@ -128,19 +140,21 @@ fn insert_trivia(text: &str, rng: &mut Rng, density: u64) -> String {
             let define_paren = is_directive && body.contains("define") && define_name_seen == 3 && piece == "(" && *s == ps[k - 1].1;
             // inside a directive the first pieces ('#', name) stay on one line and `#` stays first
             if k > 0 && !after_angle && !define_paren && rng.chance(1, density) {
-                out += if is_directive { *rng.pick(INLINE) } else { *rng.pick(ANY) };
+                let t = if is_directive { *rng.pick(INLINE) } else { *rng.pick(ANY) };
+                out += t;
+                made.push((this_line + *s, t));
             }
             out += piece;
             define_name_seen += 1;
             last = *e;
         }
         out += &body[last..];
-        if !is_directive && rng.chance(1, density * 2) { out += *rng.pick(&[" ", " // tail", " /* t */"]); }
+        if !is_directive && rng.chance(1, density * 2) { let t = *rng.pick(&[" ", " // tail", " /* t */"]); out += t; made.push((this_line + body.len(), t)); }
         // after the last token of a directive line: blanks, a comment, a splice onto an empty line
-        if is_directive && rng.chance(1, density) { out += *rng.pick(&[" ", "\t ", " // tail", " /* t */", "/* t */ // u", " \\\n"]); }
+        if is_directive && rng.chance(1, density) { let t = *rng.pick(&[" ", "\t ", " // tail", " /* t */", "/* t */ // u", " \\\n"]); out += t; made.push((this_line + body.len(), t)); }
         if line.ends_with('\n') { out.push('\n'); }
     }
-    out
+    (out, made)
 }
 
 /// `file:line:col` positions of a diagnostic text replaced by a marker; returns (text without positions, positions)
@@ -182,11 +196,33 @@ fn run_w(name: &str, seed: u64) -> String {
     let base: Vec<(String, String)> = p.files.iter().map(|(a, b)| (a.to_string(), b.to_string())).collect();
     let mut rng = Rng::new(seed);
     let density = rng.range(1, 4);
-    let varied: Vec<(String, String)> = base.iter().map(|(n, t)| (n.clone(), insert_trivia(t, &mut rng, density))).collect();
-    let (k1, o1) = outcome(&base);
-    let (k2, o2) = outcome(&varied);
+    let mut made_all: Vec<Vec<(usize, &'static str)>> = Vec::new();
+    let varied: Vec<(String, String)> = base.iter().map(|(n, t)| { let (v, made) = insert_trivia_rec(t, &mut rng, density); made_all.push(made); (n.clone(), v) }).collect();
+    let r = compare_w(&base, &varied);
+    if !r.starts_with("DIFF") { return r; }
+    // which single insertion is enough: each one is tried alone, the first that changes the result is named with the
+    // source text on both sides of it
+    for (fi, made) in made_all.iter().enumerate() {
+        for (off, t) in made {
+            let mut one = base.clone();
+            one[fi].1 = format!("{}{}{}", &base[fi].1[..*off], t, &base[fi].1[*off..]);
+            let r1 = compare_w(&base, &one);
+            if r1.starts_with("DIFF") {
+                let text = &base[fi].1;
+                let mut a = off.saturating_sub(10); while !text.is_char_boundary(a) { a -= 1; }
+                let mut b = (*off + 10).min(text.len()); while !text.is_char_boundary(b) { b += 1; }
+                return format!("{} :: single insertion in {}: [{}]+[{}]+[{}]", r1, base[fi].0, text[a..*off].escape_debug(), t.escape_debug(), text[*off..b].escape_debug());
+            }
+        }
+    }
+    format!("{} :: no single insertion is enough", r)
+}
+
+fn compare_w(base: &[(String, String)], varied: &[(String, String)]) -> String {
+    let (k1, o1) = outcome(base);
+    let (k2, o2) = outcome(varied);
     let added: usize = varied.iter().zip(base.iter()).map(|(a, b)| a.1.len() - b.1.len()).sum();
-    if std::env::var("VERIF_C14_SHOW").is_ok() { for (n, t) in &varied { eprintln!("--- {}\n{}", n, t); } }
+    if std::env::var("VERIF_C14_SHOW").is_ok() { for (n, t) in varied { eprintln!("--- {}\n{}", n, t); } }
     if k1 == "PANIC" || k2 == "PANIC" { return format!("DIFF panic {} {}", k1, k2); }
     if k1 != k2 { return format!("DIFF verdict {} -> {} :: {}", k1, k2, o2.lines().next().unwrap_or("").replace('\n', " ")); }
     if k1 == "OK" {
